@@ -31,8 +31,22 @@ func verifSpecial(s string, chars string) bool {
 // comment texts (0 = concrete); fmtSet 0 = Atlas default format, 1 = the
 // golang-migrate / flyway formats (plain files), 2 = goose / dbmate (own readers).
 func verifC07(nameLen, textLen, fmtSet int, mode string) {
-	tname := "t" + verifString("tn", nameLen)
-	cname := "c" + verifString("cn", nameLen)
+	verifC07x(nameLen, nameLen, textLen, fmtSet, mode, false)
+}
+
+// verifC07x: separate lengths for the table and the column name; quoteOnly
+// restricts the symbolic name bytes to the identifier quote character and one
+// letter (long names made of quotes are what doubling logic must get right).
+func verifC07x(tableLen, colLen, textLen, fmtSet int, mode string, quoteOnly bool) {
+	tname := "t" + verifString("tn", tableLen)
+	cname := "c" + verifString("cn", colLen)
+	if quoteOnly {
+		for _, n := range []string{tname, cname} {
+			for i := 1; i < len(n); i++ {
+				verifAssume(verifOr(n[i] == '`', n[i] == 'a'))
+			}
+		}
+	}
 	def := "d" + verifString("def", textLen)
 	cmt := "k" + verifString("cmt", textLen)
 	// Region of the listed findings: identifiers holding the dialect's quote
@@ -111,8 +125,9 @@ func verifC07(nameLen, textLen, fmtSet int, mode string) {
 func VerifHarness_C07_sqlite_atlas()          { verifC07(1, 1, 0, "main") }
 func VerifHarness_C07_sqlite_atlas_names2()   { verifC07(2, 0, 0, "main") }
 func VerifHarness_C07_sqlite_atlas_texts2()   { verifC07(0, 2, 0, "main") }
-func VerifHarness_C07_sqlite_atlas_n1()         { verifC07(1, 0, 0, "main") }
-func VerifHarness_C07_sqlite_atlas_t1()         { verifC07(0, 1, 0, "main") }
+func VerifHarness_C07_sqlite_atlas_q3()       { verifC07x(3, 1, 0, 0, "main", true) }
+func VerifHarness_C07_sqlite_atlas_n1()       { verifC07(1, 0, 0, "main") }
+func VerifHarness_C07_sqlite_atlas_t1()       { verifC07(0, 1, 0, "main") }
 func VerifHarness_C07_sqlite_plain()          { verifC07(0, 1, 1, "main") }
 func VerifHarness_C07_sqlite_foreign()        { verifC07(0, 1, 2, "main") }
 func VerifHarness_C07_sqlite_witness_ident()  { verifC07(1, 0, 0, "witness-ident") }
